@@ -19,6 +19,11 @@ def run(tier):
     cases = os.path.join(d, "cases.ndjson")
     vf.run_harness(binpath, ["spline", "gen", "--seed", vf.seed(), "--tier", tier], stdout_path=cases)
     vf.exec_and_validate(chk, binpath, "spline", "TV_Spline", cases, jvms=10, what="call")
+    # growth beyond the statement: smoothstep / smootherstep on the 1/16 lattice (notes only)
+    extra = os.path.join(d, "extra.ndjson")
+    vf.run_harness(binpath, ["spline", "gen", "extra"], stdout_path=extra)
+    ne, _, bade = vf.exec_and_validate(chk, binpath, "spline", "TV_Spline", extra, jvms=1, what="smoothstep call", as_notes=True)
+    chk.cov["extra_coverage"] = {"smoothstep_calls_validated": ne, "rejected": len(bade)}
     chk.cov["distinct_nontrivial"] = chk.cov["traces_validated_against_impl"]
     chk.cov["rule"] = ("seeded integer control polygons over several magnitudes for f32, Vec2, Point2, Vec3 and Color3f; "
                        "cubic eval / fast_eval / tangent at t = k/64 incl. t <= 0 and t >= 1; splines of 1..8 segments at "
